@@ -1668,4 +1668,5 @@ def _type_rules(repo: Repo) -> List[RuleResult]:
     from . import c06
     return [rule_typedlist(repo, "C01.types.typedlist", ["DomainParser.parse_types"], lookup_required=False),
             c06.rule_closure(repo).as_rule("C01.types.closure"), c06.rule_identity(repo).as_rule("C01.types.identity"),
-            c06.rule_parentlink(repo).as_rule("C01.types.parentlink"), c06.rule_root(repo).as_rule("C01.types.root")]
+            c06.rule_parentlink(repo).as_rule("C01.types.parentlink"), c06.rule_root(repo).as_rule("C01.types.root"),
+            c06.rule_grouplink(repo, "C01.types.grouplink"), c06.rule_tokenwalk(repo, "C01.types.tokenwalk")]
